@@ -235,9 +235,12 @@ def handle : List String → String
       (if JsonRange.colOf (sup == "u") vs == col then "1" else "0")
     | _, _, _, _ => "bad-op"
   | ["ffrange", lk, lv, uk, uv, mn, mx, full] =>
-    match parseBndN lk lv, parseBndN uk uv, mn.toNat?, mx.toNat?, parseB full with
-    | some lo, some hi, some mn, some mx, some full =>
-      match FastRange.classify lo hi mn mx full with
+    let card : Option FastRange.Card :=
+      if full == "f" then some .full else if full == "o" then some .optional
+      else if full == "m" then some .multivalued else none
+    match parseBndN lk lv, parseBndN uk uv, mn.toNat?, mx.toNat?, card with
+    | some lo, some hi, some mn, some mx, some card =>
+      match FastRange.classifyC FastRange.Shortcut.extracted lo hi mn mx card with
       | .empty => "empty"
       | .all => "all"
       | .range st en => s!"range:{st}:{en}"
